@@ -266,6 +266,21 @@ def run_e1(prop, tier, names, lengths, R: Result, timeout):
 def replay_e1(obj):
     rp = obj['replay']
     nm = os.path.basename(rp['grammar_file'])[:-5]
+    if rp.get('step'):
+        P = prepare_grammar(nm, rp['grammar_file'], 'e1replay')
+        if P.error:
+            print('generate failed: ' + P.error)
+            return 1
+        ntxt, _ = e1gen.build_step_source(P.g, P.gen['rust'], 'native')
+        nsrc = os.path.join(P.dir, 'native_step.rs')
+        open(nsrc, 'w', encoding='utf8').write(ntxt)
+        rc, out = common.sh(['rustc', '--edition', '2021', '--cap-lints', 'allow', '-O', nsrc, '-o', os.path.join(P.dir, 'native_step')], timeout=600)
+        if rc != 0:
+            print(out[-2000:])
+            return 2
+        rc, out = common.sh([os.path.join(P.dir, 'native_step'), str(rp['rule']), ','.join(map(str, rp['vals'] or []))], timeout=20)
+        print(out[-600:])
+        return 1 if (rc != 0 or 'STEP OK' not in out) else 0
     P = prepare_grammar(nm, rp['grammar_file'])
     if P.error:
         print('generate failed: ' + P.error)
@@ -277,3 +292,91 @@ def replay_e1(obj):
         print(prof, o)
         bad |= bool(o.get('hang') or o.get('rc') != 0)
     return 1 if bad else 0
+
+
+# ----------------------------------------------------------------------------
+# reduce-step harnesses (one reduction from a stack of minimal trees), any rule length
+# ----------------------------------------------------------------------------
+
+def run_reduce_steps(prop, tier, names, R: Result, timeout=900):
+    stats = {'grammars': 0, 'rules': 0, 'passed': 0, 'cbmc_checks': 0, 'solver_s': 0.0, 'max_rhs': 0}
+    samples = []
+    jobs = []
+    for nm in names:
+        path = os.path.join(E1_CORPUS, nm + '.kiki')
+        P = prepare_grammar(nm, path, 'e1step')
+        if P.error:
+            R.inconclusive.append('E1-step %s: %s' % (nm, P.error))
+            continue
+        try:
+            ktxt, meta = e1gen.build_step_source(P.g, P.gen['rust'], 'kani')
+            ntxt, _ = e1gen.build_step_source(P.g, P.gen['rust'], 'native')
+        except Exception as ex:
+            R.inconclusive.append('E1-step %s: cannot generate harness (%s)' % (nm, ex))
+            continue
+        os.makedirs(os.path.join(P.dir, 'src'), exist_ok=True)
+        open(os.path.join(P.dir, 'src', 'lib.rs'), 'w', encoding='utf8').write(ktxt)
+        open(os.path.join(P.dir, 'Cargo.toml'), 'w').write(CARGO_TOML)
+        nsrc = os.path.join(P.dir, 'native_step.rs')
+        open(nsrc, 'w', encoding='utf8').write(ntxt)
+        rc, out = common.sh(['rustc', '--edition', '2021', '--cap-lints', 'allow', '-O', nsrc, '-o', os.path.join(P.dir, 'native_step')], timeout=600)
+        P.native_step = os.path.join(P.dir, 'native_step') if rc == 0 else None
+        if rc != 0:
+            R.inconclusive.append('E1-step %s: native build failed: %s' % (nm, out[-600:]))
+            continue
+        stats['grammars'] += 1
+        stats['max_rhs'] = max([stats['max_rhs']] + [len(r.rhs) for r in P.g.rules()])
+        for m in meta:
+            jobs.append((P, m))
+
+    def work(job):
+        P, m = job
+        # each rule gets its own copy of the crate dir so that cargo locks do not serialise
+        d = os.path.join(P.dir, 'r%d' % m['rule'])
+        os.makedirs(os.path.join(d, 'src'), exist_ok=True)
+        shutil.copy(os.path.join(P.dir, 'src', 'lib.rs'), os.path.join(d, 'src', 'lib.rs'))
+        shutil.copy(os.path.join(P.dir, 'Cargo.toml'), os.path.join(d, 'Cargo.toml'))
+        spec = {'name': 'e1_reduce_step_r%d' % m['rule'], 'crate': d, 'timeout': timeout, 'mem_gb': 16}
+        r = kani_runner.run_harness(spec, os.path.join(d, 'target'))
+        if r['verdict'] == 'violation':
+            spec['playback'] = True
+            r['playback'] = kani_runner.run_harness(spec, os.path.join(d, 'target')).get('playback')
+        shutil.rmtree(os.path.join(d, 'target'), ignore_errors=True)
+        r['grammar'], r['rule'], r['m'] = P.name, m['rule'], m
+        log('[e1-step] %-20s r%-2d %-12s %5.1fs %s' % (P.name, m['rule'], r['verdict'], r['wall'], r.get('why', '')[:120]))
+        return r, P
+    with ThreadPoolExecutor(max_workers=min(common.NCPU, max(1, len(jobs)))) as ex:
+        results = list(ex.map(work, jobs))
+    for r, P in results:
+        stats['rules'] += 1
+        key = '%s:r%d' % (r['grammar'], r['rule'])
+        if r['verdict'] == 'pass':
+            stats['passed'] += 1
+            stats['cbmc_checks'] += r.get('checks', 0)
+            stats['solver_s'] += r.get('verification_time', 0.0)
+            if len(samples) < 4:
+                samples.append({'grammar': r['grammar'], 'rule': P.g.bnf()[r['rule']], 'payload_bytes_symbolic': r['m']['payload_leaves'],
+                                'cbmc_checks': r.get('checks'), 'solver_s': r.get('verification_time')})
+        elif r['verdict'] == 'violation':
+            own, other, untagged = attribute(prop, r['failures'])
+            rel = own or untagged
+            vals = None
+            if r.get('playback'):
+                vecs = re.findall(r'vec!\[([0-9,\s]*)\]', r['playback'])
+                vals = [int(x) for v in vecs for x in v.replace(' ', '').split(',') if x != '']
+            confirmed = None
+            nat = ''
+            if vals is not None:
+                rc, out = common.sh([P.native_step, str(r['rule']), ','.join(map(str, vals))], timeout=20)
+                confirmed = rc != 0 or 'STEP OK' not in out
+                nat = out[-200:].strip()
+            desc = 'reduce step %s (%s): %s; vals=%s native: %s' % (key, P.g.bnf()[r['rule']], '; '.join(f['description'] for f in (rel or r['failures'])[:3]), vals, nat)
+            if not rel:
+                R.inconclusive.append('E1-step %s: only other properties\' assertions failed (%s)' % (key, '; '.join(f['description'] for f in other[:2])))
+            elif confirmed:
+                R.violation('e1step:' + key, desc, {'grammar_file': P.path, 'rule': r['rule'], 'vals': vals, 'step': True})
+            else:
+                R.inconclusive.append('E1-step %s: counterexample not reproduced natively: %s' % (key, desc))
+        else:
+            R.inconclusive.append('E1-step %s: %s' % (key, r.get('why')))
+    return stats, samples
